@@ -24,7 +24,7 @@ def shamir_consts(mode, q=11, nset=(3,), tmax=3, coefs=None, bases=(0,), start="
             "MaxNil2": maxnil2, "WithCheck": with_check, "L": L, "EmitAll": emit_all, "ObsAll": obs_all}
 
 
-SHAMIR_INV = ["TypeOK", "PolySound", "CommitBinds", "ArithCommutes", "Emit"]
+SHAMIR_INV = ["TypeOK", "PolySound", "CommitBinds", "RoutesAgree", "ArithCommutes", "Emit"]
 
 
 class Shadow:
@@ -125,6 +125,10 @@ def c07(ctx):
         # Z_5: the whole universe - every polynomial, every base, every slice
         exact("C07_z5_all", 5, nset=(1, 2, 3) if q else (1, 2, 3, 4), tmax=3, bases=(2,) if q else (0, 2),
               maxnil=1, maxnilv=0 if q else 1, rich=3, coefs2=tuple(range(5)), maxnil2=1, with_check=True),
+        # every exported route to a PriPoly / PubPoly (CoefficientsToPriPoly, NewPriPoly, RecoverPriPoly, Add, Mul; Commit,
+        # NewPubPoly, RecoverPubPoly, PubPoly.Add) x nil, standard and non-standard base: Check(i,v) for all i, v, Eval,
+        # Shares, Commit, Info, Equal on each object
+        exact("C07_z11_routes", 11, mode="check", nset=(4,), tmax=3, coefs=[0, 1, 10], bases=(0, 1, 3), start="honest", muts=()),
         # Add / Mul commute with evaluation and commitment (all pairs of polynomials)
         exact("C07_z5_arith", 5, mode="arith", nset=(3,), tmax=2 if q else 3, bases=(0, 3), start="honest", muts=()),
         # random walks over all slice edits, n up to 7, order-23 group
@@ -148,7 +152,8 @@ def c07(ctx):
         "model_checking",
         "case = (polynomial, base point, n, t, share slice) reached by TLC; TLC checks on every dealt polynomial that Lagrange "
         "interpolation through any t-subset (and any larger subset) of the n shares gives the dealer's secret / commitment / "
-        "polynomial and that Check(i,v) <=> v=f(i+1) for all i,v, and ships per slice the verdict (>= t distinct usable shares "
+        "polynomial and that Check(i,v) <=> v=f(i+1) for all i,v (objects built through every exported route: CoefficientsToPriPoly, "
+        "NewPriPoly, RecoverPriPoly, Add, Mul / Commit, NewPubPoly, RecoverPubPoly, PubPoly.Add; nil, standard and other bases), and ships per slice the verdict (>= t distinct usable shares "
         "or refused) with the expected values; (i) exact: replayed on share/poly.go over p256.ResidueGroup(23,11,2,4), (11,5,2,4), "
         "(47,23,2,4), every returned scalar and point compared numerically; (ii) lifted: slice shapes for n<=12 (thorough 24) on "
         "Ed25519, P-256, QR512, BN256 G1/G2, BLS12-381 (kilic G1, circl G2, gnark G1) with random and zero secrets, standard and "
